@@ -108,9 +108,13 @@ PAIRS = [
     ((L('f/'), W('p', 'path')), (L('f/x/'), W('b', 'int'), L('/end'))),
     ((L('v/'), W('n', 'int'), L('/'), W('t')), (L('v/'), W('n', 'int'), L('-'), W('k'), L('/'), W('t'))),
     ((W('a0'), L('/'), W('b')), (L('s/'), W('b'), L('/t'))),
+    # two rules that leave the same wildcards with literals sharing a beginning (the node of the older rule is split by the newer one)
+    ((L('u/'), W('id', 'int'), L('/profile')), (L('u/'), W('id', 'int'), L('/prefs'))),
+    ((L('shop/'), W('cat'), L('/item-'), W('no', 'int'), L('/details')), (L('shop/'), W('cat'), L('/item-'), W('no', 'int'), L('/delivery'))),
+    ((L('u/'), W('id'), L('/pro')), (L('u/'), W('id'), L('/profile'))),
 ]
 PAIRS = [tuple(r if isinstance(r, tuple) and r and isinstance(r[0], tuple) else (r,) for r in p) for p in PAIRS]
-PAIR_SEGS = ['files', 'raw', 'view', '7', 'x', 'a', 'b', 'c', 'd', 'me', 'u', 'f', 'end', 'v', '3-k', 's', 't', '12']
+PAIR_SEGS = ['files', 'raw', 'view', '7', 'x', 'a', 'b', 'c', 'd', 'me', 'u', 'f', 'end', 'v', '3-k', 's', 't', '12', 'profile', 'prefs', 'pro', 'shop', 'item-5', 'details', 'delivery']
 
 
 def pair_paths(pair, tier):
